@@ -60,6 +60,14 @@ Theorem C08_clash_inert : forall ls h sp loc scr f sst scl,
   /\ mailbox s = [] /\ waiters s = [] /\ status s = 0 /\ events s = O /\ ran s = O.
 Proof. exact clash_creates_nothing. Qed.
 
+(* the executable oracles are sound for the model: check_C08 accepts every observation of a finished
+   failed spawn (second conjunct of C08_clean_failure), check_clash every observation of a refused one *)
+Theorem C08_clash_oracle_sound : forall ls h sp loc scr f sst scl,
+  let s := exec ls (init true sp loc scr f (Some h) sst scl) in
+  Forall (fun l => forall b, l <> LReuseName b) ls ->
+  check_clash (observe s) = true.
+Proof. exact clash_oracle_sound. Qed.
+
 (* no step of a failing spawn removes or replaces another actor's registration of the name *)
 Theorem C08_holder_untouched : forall ls0 nm sp loc scr f holder sst scl l,
   let s := exec ls0 (init nm sp loc scr f holder sst scl) in
@@ -145,3 +153,4 @@ Print Assumptions C08_failure_enters_cleanup.
 Print Assumptions C08_cleanup_completes.
 Print Assumptions C08_clash_inert.
 Print Assumptions C08_holder_untouched.
+Print Assumptions C08_clash_oracle_sound.
